@@ -24,6 +24,10 @@ func makeTlsConfig(cfg *TlsConfig, requireCert bool) (*tls.Config, error) {
 		}
 		c.RootCAs = pool
 	}
+	if cfg.VerifyClientCert {
+		c.ClientAuth = tls.RequireAndVerifyClientCert
+		c.ClientCAs = c.RootCAs // nil means the system roots
+	}
 
 	if cfg.DebugUseTempCert {
 		cert, err := testutils.GenerateCertificate("test.test")
